@@ -3,9 +3,11 @@
    (absent, booleans, integers of the whole i64 / u64 range, floats as bit patterns, big integers of both
    signs, texts, blobs).  [enc_scalar] is what MsgPackInterpreter writes, [dec_scalar] what
    read_from_msg_pack reads (marker dispatch, lengths, extensions, the checks for missing input).
-   Not modelled (oracle on the real code only): records (attribute maps and array / map / mixed bodies),
-   the derive macro's two reading paths and its writer, the Recon path; see MANIFEST (partial). *)
-From SwimV Require Import Model.MsgPack Proofs.MsgPackProofs.
+   [enc] / [dec] extend them to model values with records: a map of attributes, then an array-like,
+   map-like or mixed body, nested to any depth.
+   Not modelled (oracle on the real code only): the derive macro's two reading paths and its writer,
+   delegated (scalar) record bodies, the Recon path; see MANIFEST (partial). *)
+From SwimV Require Import Model.MsgPack Proofs.MsgPackProofs Proofs.MsgPackRecordProofs.
 Open Scope N_scope.
 
 (* every scalar value, of any size the format can carry, is read back unchanged from what was written,
@@ -22,6 +24,21 @@ Proof. exact scalar_truncated. Qed.
 (* different values never share an encoding *)
 Theorem C16_encoding_injective : forall a b, wf a -> wf b -> enc_scalar a = enc_scalar b -> a = b.
 Proof. exact enc_scalar_injective. Qed.
+
+(* every model value - scalars and records with any number of attributes, array-like, map-like, mixed or
+   empty bodies, nested to any depth - is read back unchanged from what was written, whatever follows it *)
+Theorem C16_record_roundtrip : forall v, WFV v ->
+  forall fuel rest, (depth v <= fuel)%nat -> dec fuel (enc v ++ rest) = VOk v rest.
+Proof. exact record_roundtrip. Qed.
+
+(* different model values never share an encoding *)
+Theorem C16_record_encoding_injective : forall a b, WFV a -> WFV b -> enc a = enc b -> a = b.
+Proof. exact enc_injective. Qed.
+
+Example C16_record_nonvacuous :
+  let v := VR [([97], VS (MPos 1))] [(None, VS (MStr [104; 105])); (Some (VS (MPos 2)), VR [] [(None, VS MNil)])] in
+  WFV v /\ dec 3 (enc v) = VOk v [] /\ enc v = [129; 161; 97; 1; 146; 162; 104; 105; 146; 2; 128; 145; 192].
+Proof. exact record_witness. Qed.
 
 Example C16_nonvacuous : wf (MBigInt true 300) /\ wf (MNeg 129) /\ wf (MStr [104; 105]) /\
   dec_scalar (enc_scalar (MBigInt true 300)) = MOk (MBigInt true 300) [].
